@@ -119,8 +119,8 @@ def gen_program(rng, cyclic=True, negation=True, ads=True, evidence=True, max_le
             else:
                 stmts.append(("rule", r[0], r[1]))
     if ads and rng.random() < 0.6:
-        nh = rng.randint(2, 3)
-        ps = [F(rng.randint(1, 3), 10) for _ in range(nh)]
+        nh = rng.choice([2, 3, 3, 4])
+        ps = [F(rng.randint(1, 3 if nh < 4 else 2), 10) for _ in range(nh)]
         heads = []
         for i in range(nh):
             name = "h%d" % i
@@ -136,6 +136,16 @@ def gen_program(rng, cyclic=True, negation=True, ads=True, evidence=True, max_le
                 heads = [(h, ("X",)) for h, _ in heads]
                 stmts.append(("ad", list(zip(ps, heads)), [("pos", (p, bargs))]))
     hp = [p for p in preds if p.startswith("h")]
+    if len(hp) >= 2 and der and rng.random() < 0.35:
+        # a rule that needs TWO heads of the annotated disjunction (mutually exclusive when they belong to the same
+        # group instance, independent otherwise)
+        name = rng.choice(der)
+        if preds[name][0] == 0:
+            h1, h2 = rng.sample(hp, 2)
+            stmts.append(("rule", (name, ()), [("pos", (h1, (rng.choice(consts),))), ("pos", (h2, (rng.choice(consts),)))]))
+        elif preds[name][0] == 1:
+            h1, h2 = rng.sample(hp, 2)
+            stmts.append(("rule", (name, ("X",)), [("pos", (h1, ("X",))), ("pos", (h2, (rng.choice(["X"] + consts),)))]))
     if hp and der and rng.random() < 0.7:
         name = rng.choice(der)
         har = preds[name][0]
